@@ -3,9 +3,9 @@
       division of Model/Poly.v keeps u = q*v + r, and (q, r) is THE pair with r zero or shorter than v
       (the proofs of Proofs/PolyDiv.v / PolyDivUnique.v, which assume a field, with the inverse replaced by the exact
       quotient) -- instantiated at the integers AZ;
-   2. for a divisor whose leading coefficient is +1 or -1 the integer division always goes through, and every size met
-      on the way is at most  U * (1 + V)^(len u - len v + 1)  (U, V bounds of |u_i|, |v_j|): the closed-form sufficient
-      condition for polydiv_fits (Proofs/PolyExactDiv.v). *)
+   2. every size met on the way of the integer run is at most  U * (1 + V)^(len u - len v + 1)  (U, V bounds of |u_i|,
+      |v_j|; the leading coefficient of v nonzero): the closed-form sufficient condition for polydiv_fits
+      (Proofs/PolyExactDiv.v); for a leading coefficient +1 or -1 the integer division always goes through. *)
 From Coq Require Import ZArith Lia List Bool Arith Ring Ring_theory.
 From OV Require Import Base.Panic Base.Arith gen.Params Model.Poly Proofs.Poly Proofs.PolyExtra Proofs.PolyDiv
                        Proofs.PolyExact Proofs.PolyExactDiv.
@@ -271,23 +271,27 @@ Proof. rewrite map_app. cbn [map]. f_equal. induction n; cbn; congruence. Qed.
 Lemma nth_map_abs l k : nth k (map Z.abs l) 0 = Z.abs (nth k l 0).
 Proof. change 0 with (Z.abs 0) at 1. apply map_nth. Qed.
 
-Section Monic.
-Variable vz : list Z.
-Hypothesis Nv : vz <> [].
-Hypothesis Lead : last vz 0 = 1 \/ last vz 0 = -1.
-Variable V : Z.
-Hypothesis HV : cb V vz.
-
-Lemma monic_V1 : 1 <= V.
-Proof. specialize (HV (length vz - 1)%nat). rewrite nth_last_idx in HV. destruct Lead as [E|E]; rewrite E in HV; cbn in HV; lia. Qed.
-
-Lemma monic_div_lead : forall x : AZ, exists z, div x (last vz (@zero AZ)) = Ok z.
+(* a leading coefficient +1 or -1 divides everything *)
+Lemma monic_div_lead (vz : list Z) : last vz 0 = 1 \/ last vz 0 = -1 ->
+  forall x : AZ, exists z, div x (last vz (@zero AZ)) = Ok z.
 Proof.
-  intros x. change (@zero AZ) with 0. cbn. unfold z_div.
+  intros Lead x. change (@zero AZ) with 0. cbn. unfold z_div.
   destruct Lead as [-> | ->]; cbn [Z.eqb].
   - rewrite Z.mod_1_r. cbn. eauto.
   - replace (x mod -1) with 0; [cbn; eauto|]. symmetry. apply Z.mod_divide; [lia|]. exists (- x). lia.
 Qed.
+
+(* Sizes along the integer run.  Only  lead(v) <> 0  is used: a quotient term c with c * lead(v) = lead(r) satisfies
+   |c| <= |lead(r)|.  (Whether the divisions go through is a separate matter: always for lead(v) = +-1.) *)
+Section Monic.
+Variable vz : list Z.
+Hypothesis Nv : vz <> [].
+Hypothesis Lnz : last vz 0 <> 0.
+Variable V : Z.
+Hypothesis HV : cb V vz.
+
+Lemma monic_V1 : 1 <= V.
+Proof. specialize (HV (length vz - 1)%nat). rewrite nth_last_idx in HV. lia. Qed.
 
 Lemma monic_body (qz rz : list Z) (M Q : Z) : cb Q qz -> cb M rz -> 0 <= M -> 0 <= Q ->
   rz <> [] -> (length vz <= length rz)%nat -> M * (1 + V) < 2 ^ 53 -> Q + M < 2 ^ 53 ->
@@ -302,7 +306,7 @@ Proof.
   (* facts about any quotient term c the division by the leading coefficient returns *)
   assert (Hc : forall c, div (nth (length rz - 1) rz 0 : AZ) (nth (length vz - 1) vz 0) = Ok c -> Z.abs c <= M).
   { intros c Ec. apply z_div_Ok in Ec as [_ Ec]. rewrite (nth_last_idx vz) in Ec. specialize (HM (length rz - 1)%nat).
-    destruct Lead as [E|E]; rewrite E in Ec; lia. }
+    rewrite Ec, Z.abs_mul in HM. assert (1 <= Z.abs (last vz 0)) by lia. pose proof (Z.abs_nonneg c). nia. }
   assert (Hq : forall c, Z.abs c <= M -> cb (Q + M) (padd (A := AZ) qz (repeat 0 n ++ [c]))).
   { intros c Hc' k. rewrite AZ_nth_padd, AZ_coef_monomial. specialize (HQ k). cbn. destruct (k =? n)%nat; lia. }
   assert (Hm : forall c k, Z.abs c <= M -> Z.abs (conv (A := AZ) (repeat 0 n ++ [c]) vz k) <= M * V).
@@ -327,25 +331,31 @@ Proof.
     + apply (cb_fits (M * (1 + V))); auto.
   - (* the result of the pass *)
     intros q' r' E.
-    destruct (polydiv_body_ok (A := AZ) eq_refl vz Nv monic_div_lead qz rz Nr Hlen) as (q'' & r'' & E' & Hlen').
-    rewrite E in E'. injection E' as <- <-. split; [|split; [|exact Hlen']].
-    + unfold polydiv_body in E. cbv zeta in E. change (T AZ) with Z in E.
-      rewrite (rd_ok rz (length rz - 1) 0) in E by lia. cbn [bind] in E.
-      rewrite (rd_ok vz (length vz - 1) 0) in E by lia. cbn [bind] in E.
-      apply bind_ok in E as (c & Ec & E). pose proof (Hc c Ec) as Hc'. fold n in E. change (@zero AZ) with 0 in E.
-      apply bind_ok in E as (l & El & E). apply bind_ok in E as (r2 & E2 & E).
-      apply bind_ok in E as (r3 & E3 & E). apply bind_ok in E as (q3 & E4 & E). injection E as <- <-.
-      intros k. rewrite (AZ_ptrim_coef _ _ k E4).
-      apply Hq; auto.
-    + unfold polydiv_body in E. cbv zeta in E. change (T AZ) with Z in E.
-      rewrite (rd_ok rz (length rz - 1) 0) in E by lia. cbn [bind] in E.
-      rewrite (rd_ok vz (length vz - 1) 0) in E by lia. cbn [bind] in E.
-      apply bind_ok in E as (c & Ec & E). pose proof (Hc c Ec) as Hc'. fold n in E. change (@zero AZ) with 0 in E.
-      apply bind_ok in E as (l & El & E). apply bind_ok in E as (r2 & E2 & E). apply upd_Ok_inv in E2 as (Hl & ->).
-      apply bind_ok in E as (r3 & E3 & E). apply bind_ok in E as (q3 & E4 & E). injection E as <- <-.
-      intros k. rewrite (AZ_ptrim_coef _ _ k E3).
-      rewrite nth_upd_list by auto. destruct (k =? l)%nat; [|apply Hr; auto].
+    unfold polydiv_body in E. cbv zeta in E. change (T AZ) with Z in E.
+    rewrite (rd_ok rz (length rz - 1) 0) in E by lia. cbn [bind] in E.
+    rewrite (rd_ok vz (length vz - 1) 0) in E by lia. cbn [bind] in E.
+    apply bind_ok in E as (c & Ec & E). pose proof (Hc c Ec) as Hc'. fold n in E. change (@zero AZ) with 0 in E.
+    apply bind_ok in E as (l & El & E). unfold usub in El.
+    match type of El with (if ?b then _ else _) = _ => destruct b; [|discriminate] end. injection El as <-.
+    apply bind_ok in E as (r2 & E2 & E). apply upd_Ok_inv in E2 as (Hl & ->).
+    apply bind_ok in E as (r3 & E3 & E). apply bind_ok in E as (q3 & E4 & E). injection E as <- <-.
+    split; [|split].
+    + intros k. rewrite (AZ_ptrim_coef _ _ k E4). apply Hq; auto.
+    + intros k. rewrite (AZ_ptrim_coef _ _ k E3).
+      rewrite nth_upd_list by auto. match goal with |- context [(k =? ?i)%nat] => destruct (k =? i)%nat end; [|apply Hr; auto].
       pose proof (Z.mul_nonneg_nonneg M (1 + V) M0 ltac:(lia)). change (Z.abs 0) with 0. lia.
+    + match type of E3 with ptrim (upd_list (psub _ (pmul ?t _)) _ _) = _ =>
+        assert (Lt : length t = (length rz - length vz + 1)%nat)
+          by (rewrite app_length, repeat_length; cbn [length]; unfold n; lia);
+        assert (Nt : t <> []) by (intros Z; rewrite Z in Lt; cbn in Lt; lia);
+        assert (L1 : length (psub (A := AZ) rz (pmul (A := AZ) t vz)) = length rz)
+          by (pose proof (length_psub (A := AZ) rz (pmul (A := AZ) t vz)) as L;
+              pose proof (length_pmul (A := AZ) t vz Nt Nv) as L'; change (@length (T AZ)) with (@length Z) in *; lia);
+        assert (N1 : psub (A := AZ) rz (pmul (A := AZ) t vz) <> []) by (intros Z; rewrite Z in L1; cbn in L1; lia);
+        destruct (ptrim_zeroed_lead (A := AZ) eq_refl _ N1) as (r'' & Er & Hr'');
+        assert (Er3 : Ok r3 = Ok r'') by (rewrite <- E3; exact Er); injection Er3 as ->;
+        destruct Hr'' as [Hlt|Hz]; [left; change (@length (T AZ)) with (@length Z) in *; lia | right; exact Hz]
+      end.
 Qed.
 
 Lemma loop_fits_zero fuel count (qz rz : list Z) : is_zero (A := AZ) rz = true ->
@@ -387,8 +397,8 @@ Proof.
 Qed.
 End Loop.
 
-(* the closed form: |u_i| <= U, |v_j| <= V, leading coefficient of v = +-1, U (1+V)^(len u - len v + 1) < 2^53 *)
-Lemma polydiv_fits_monic (uz : list Z) (U : Z) : 0 <= U -> cb U uz ->
+(* the closed form: |u_i| <= U, |v_j| <= V, leading coefficient of v nonzero, U (1+V)^(len u - len v + 1) < 2^53 *)
+Lemma polydiv_fits_of_bounds (uz : list Z) (U : Z) : 0 <= U -> cb U uz ->
   U * (1 + V) ^ Z.of_nat (length uz - length vz + 1) < 2 ^ 53 -> polydiv_fits (ZA := AZ) Z.abs (fun _ _ => True) uz vz.
 Proof.
   intros U0 HU HB. unfold polydiv_fits.
